@@ -965,7 +965,7 @@ func Check(r *ev.Run, replay string) {
 	r.Set("misfit_cases", len(us)-nVals)
 	r.Set("method_holder_types", len(holders))
 	r.Set("workers", n)
-	r.Set("rule", fmt.Sprintf("every Go type built from %d leaf types (14 basic kinds, 14 named twins, time.Time, time.Duration, []byte, error, any, 4 named composites, map[NString]int) under <= %d constructors from {pointer, slice, array[2], map[string]T, struct{F T}, interface holding T} = %d types; every value from {zero, nil where legal, min, max, ordinary, empty} propagated through each constructor = %d (type, value) cases; each through the routes global (+typed back), field-read, field-write x {value from a Go field, script-built object}, method Echo(T) T x {same two sources} for the %d statically instantiated holder types; array refill (a full list, then a shorter list into a fresh holder of the same array type; nested arrays with a short second row: rejected or exactly [w, zero]); struct refill (a map with an ill-typed field, its keys visited in each of the 6 orders - the check is built with the map seam -, then a one-field map into the same struct type, also as slice elements: rejected or exactly that field); plus every type with <= %d constructors (%d) x %d possibly ill-fitting script objects written to a field / passed to a method (no-panic only); proxy histories: every sequence of <= 4 (thorough 5) steps over 18 operations on one Go object reached through a proxy (reads and writes of a pointer-to-struct field, a struct field, a string and a slice field, a Go method that replaces the pointer, a write through a second proxy of the same object, a nested object held and used later) against a plain Go model of the same steps - the script sees what Go holds, Go holds what the script wrote. distinct = distinct (route, outcome class, constructor chain, leaf class) tuples",
+	r.Set("rule", fmt.Sprintf("every Go type built from %d leaf types (14 basic kinds, 14 named twins, time.Time, time.Duration, []byte, error, any, 4 named composites, map[NString]int) under <= %d constructors from {pointer, slice, array[2], map[string]T, struct{F T}, interface holding T} = %d types; every value from {zero, nil where legal, min, max, ordinary, empty} propagated through each constructor = %d (type, value) cases; each through the routes global (+typed back), field-read, field-write x {value from a Go field, script-built object}, method Echo(T) T x {same two sources} for the %d statically instantiated holder types; array refill (a full list, then a shorter list into a fresh holder of the same array type; nested arrays with a short second row: rejected or exactly [w, zero]); struct refill (a map with an ill-typed field, its keys visited in each of the 6 orders - the check is built with the map seam -, then a one-field map into the same struct type, also as slice elements: rejected or exactly that field); plus every type with <= %d constructors (%d) x %d possibly ill-fitting script objects written to a field / passed to a method (no-panic only); proxy histories: every sequence of <= 4 (thorough 5) steps over 22 operations on one Go object reached through a proxy (reads and writes of a pointer-to-struct field, a struct field, a string and a slice field, a Go method that replaces the pointer, a write through a second proxy of the same object, a nested object held and used later) against a plain Go model of the same steps - the script sees what Go holds, Go holds what the script wrote. distinct = distinct (route, outcome class, constructor chain, leaf class) tuples",
 		len(leaves()), vd, nSpecs, nVals, len(holders), md, nMis, len(misfits)))
 	r.Assumptions = []string{
 		"composite values are one wrapping per element value (slice/array [v, zero], map {k: v}, struct {F: v}, &v, boxed v) plus nil/empty; not all combinations of element values",
